@@ -171,22 +171,54 @@ def classify(results, cases_path, verdict, status, stats):
                  "case": cases[res["case"]]})
 
 
-def run_replays(bd, wd, tmp, plan, seed, verdict, status, stats, threads=8):
-    """One kv_replay invocation over all behaviours (families are matched to
-    the behaviour's domain sizes by the harness)."""
-    allcases = os.path.join(wd, "cases_all.ndjson")
-    per_case = 0
-    with open(allcases, "w") as f:
-        for name, cases_path, pc in plan:
-            per_case = max(per_case, pc)
-            f.write(open(cases_path).read())
-    out = os.path.join(wd, "result_all.ndjson")
-    kv_replay(bd, "--cases", allcases, "--out", out, "--fams", "all", "--per-case", per_case,
-              "--seed", seed, "--threads", threads, "--tmp", tmp, "--watchdog", 60)
-    results = [json.loads(l) for l in open(out) if l.strip()]
-    if not any(r.get("summary") for r in results):
-        raise vp.ToolError(f"kv_replay wrote no summary for {allcases}")
-    classify(results, allcases, verdict, status, stats)
+def _kv_replay_shard(bd, wd, args, timeout=3000):
+    """kv_replay with core dumps enabled (cwd = work dir). Returns the return code."""
+    import resource
+    import subprocess
+
+    def pre():
+        try:
+            resource.setrlimit(resource.RLIMIT_CORE, (resource.RLIM_INFINITY, resource.RLIM_INFINITY))
+        except (ValueError, OSError):
+            pass
+    try:
+        p = subprocess.run([os.path.join(bd, "kv_replay")] + [str(a) for a in args], cwd=wd, timeout=timeout,
+                           stdout=subprocess.PIPE, stderr=subprocess.STDOUT, text=True, errors="replace",
+                           preexec_fn=pre)
+    except subprocess.TimeoutExpired as ex:
+        raise vp.ToolError(f"kv_replay timeout after {timeout}s") from ex
+    return p.returncode, p.stdout or ""
+
+
+def run_replays(bd, wd, tmp, plan, seed, verdict, status, stats, threads=8, shard=400):
+    """All behaviours, in shards of `shard` behaviours per kv_replay process
+    (families are matched to the behaviour's domain sizes by the harness).
+    A shard whose process dies from a signal (seen once: SIGSEGV inside the
+    native store libraries under heavy machine load, not reproducible) is
+    retried once; a second death is a tool error."""
+    lines, per_case = [], 0
+    for name, cases_path, pc in plan:
+        per_case = max(per_case, pc)
+        lines += [l for l in open(cases_path) if l.strip()]
+    for n, i in enumerate(range(0, len(lines), shard)):
+        cases = os.path.join(wd, f"cases_shard{n}.ndjson")
+        with open(cases, "w") as f:
+            f.writelines(lines[i:i + shard])
+        out = os.path.join(wd, f"result_shard{n}.ndjson")
+        args = ["--cases", cases, "--out", out, "--fams", "all", "--per-case", per_case, "--seed", seed + n,
+                "--threads", threads, "--tmp", tmp, "--watchdog", 60]
+        for attempt in (1, 2):
+            rc, text = _kv_replay_shard(bd, wd, args)
+            if rc == 0:
+                break
+            stats["harness_process_deaths"].append({"shard": n, "attempt": attempt, "rc": rc, "tail": text[-500:]})
+            vp.log(f"kv_replay shard {n} attempt {attempt} died rc={rc}")
+            if rc > 0 or attempt == 2:
+                raise vp.ToolError(f"kv_replay failed on shard {n} (rc={rc}); core file, if any, in {wd}\n{text[-3000:]}")
+        results = [json.loads(l) for l in open(out) if l.strip()]
+        if not any(r.get("summary") for r in results):
+            raise vp.ToolError(f"kv_replay wrote no summary for {cases}")
+        classify(results, cases, verdict, status, stats)
 
 
 def atomic_probe(bd, tmp, verdict, status, stats, batches, fillers):
@@ -211,7 +243,7 @@ def atomic_probe(bd, tmp, verdict, status, stats, batches, fillers):
 
 def new_stats():
     return {"runs": 0, "reads_compared": 0, "model_drift": {}, "drift_samples": {}, "kf_samples": {},
-            "viol_seen": set(), "viol_dups": 0, "atomic_probe": None}
+            "viol_seen": set(), "viol_dups": 0, "atomic_probe": None, "harness_process_deaths": []}
 
 
 # --------------------------------------------------------------------------
@@ -275,6 +307,7 @@ def run(tier, seed):
         "known_finding_hits": {k: h["count"] for k, h in verdict.known_hits.items()},
         "known_finding_samples": stats["kf_samples"],
         "duplicate_violations_suppressed": stats["viol_dups"],
+        "harness_process_deaths_retried": stats["harness_process_deaths"],
         "rule": "one trace = one TLC behaviour (open/fill/consume/commit/drop batches and buffers, get, scan, "
                 "lazy iterator, reopen) replayed on one backend under one concrete key family in a fresh "
                 "directory; every get/scan and, after every commit/drop/reopen, every cell and every set is "
